@@ -535,7 +535,11 @@ func checkC17(p *Prog, res *Result, tier string) {
 func isListPop(f *ssa.Function) bool { return false }
 
 // allCellValues: every value that may be stored in the cell(s) v is loaded from (local cells, captured cells), or v.
-func allCellValues(p *Prog, v ssa.Value) []ssa.Value {
+func allCellValues(p *Prog, v ssa.Value) []ssa.Value { return allCellValuesOpt(p, v, true) }
+
+// allCellValuesOpt: with followFields=false a load of a struct field is returned as it is (the caller resolves the
+// object it is read from).
+func allCellValuesOpt(p *Prog, v ssa.Value, followFields bool) []ssa.Value {
 	var out []ssa.Value
 	seen := map[ssa.Value]bool{}
 	var rec func(v ssa.Value, d int)
@@ -582,7 +586,7 @@ func allCellValues(p *Prog, v ssa.Value) []ssa.Value {
 		if fx, ok := v.(*ssa.Field); ok {
 			fromField = fieldOfField(fx)
 		}
-		if fromField != nil && fromField.Pkg() != nil && strings.HasPrefix(fromField.Pkg().Path(), modPath) {
+		if followFields && fromField != nil && fromField.Pkg() != nil && strings.HasPrefix(fromField.Pkg().Path(), modPath) {
 			if sts := p.fields().stores[fromField]; len(sts) > 0 {
 				for _, st := range sts {
 					rec(st.Val, d+1)
